@@ -104,9 +104,11 @@ def _(u):
     ds = u.obj(DS, "TensorDictDatasetFastGeneration")
     u.run(DS, "TensorDictDatasetFastGeneration.__init__", td, selfobj=ds, record=False)
     ds2 = u.run(DS, "TensorDictDatasetFastGeneration.add_key", "extra", extra, selfobj=ds, record=False)
+    u.native("dataset.fastgen", chunks=[list(c) for c in CHUNKS])
     for c, chunk in enumerate(CHUNKS):
         got = u.run(DS, "TensorDictDatasetFastGeneration.__getitems__", list(chunk), selfobj=ds2, record=False)
         batch = u.run(DS, "TensorDictDatasetFastGeneration.collate_fn", got, record=False)
+        u.native_out(f"chunk{c}.extra", batch["extra"])
         _check_batch(u, f"chunk{c}", batch, td, chunk, D, extra=extra)
     # history: the same dataset object gets the key again with new values (next epoch, baseline updated): the NEW values travel
     extra2 = u.tensor("extra_second_wrap", (NDATA,), "f")
@@ -114,6 +116,7 @@ def _(u):
     for c, chunk in enumerate(CHUNKS[1:3]):
         got = u.run(DS, "TensorDictDatasetFastGeneration.__getitems__", list(chunk), selfobj=ds3, record=False)
         batch = u.run(DS, "TensorDictDatasetFastGeneration.collate_fn", got, record=False)
+        u.native_out(f"rewrap.chunk{c}.extra", batch["extra"])
         _check_batch(u, f"rewrap.chunk{c}", batch, td, chunk, D, extra=extra2)
 
 
